@@ -156,10 +156,14 @@ def y_scripts(seed, count):
         xid = "y%d" % n
         steps = []
         alive, invalid, nid = [], set(), 1
+        used_keys = []
         for k in range(rnd.randrange(10, 40)):
             r = rnd.random()
             if (r < 0.3 or not alive) and nid <= 8:
                 key = tuple(rnd.choice(["a", "b", "c", "a", "b", "ab"]) for _ in range(rnd.randrange(1, 5)))
+                if used_keys and rnd.random() < 0.45:
+                    key = rnd.choice(used_keys)    # several observers under one key, subscribed at different times
+                used_keys.append(key)
                 steps.append(("Subscribe", key, nid))
                 alive.append(nid)
                 nid += 1
